@@ -182,7 +182,10 @@ def analyse_resolution(ctx, interp: Interp, om: OriginModel, consts: Consts, r: 
             ctx.unk("C05.8", f"{Q}.serialize(deserialize(id)) == id at resolution {r}", where,
                     f"re-encoding has {len(re)} outcomes (not decided)")
     elif cells:
-        if any(o.state.path for o in cells):
+        if any(opaque_path(o.state) for o in cells):
+            ctx.unk("C05.6", f"{Q}.deserialize on ids of resolution {r}", core.loc(SER, cells[0].node),
+                    "the decoder uses an operation that is not modelled: " + "; ".join(f"[{describe_path(o.state)}]" for o in cells[:3]))
+        elif any(o.state.path for o in cells):
             ctx.bad("C05.6", f"{Q}.deserialize on ids of resolution {r}: decoding depends on data bits", core.loc(SER, cells[0].node),
                     "; ".join(f"[{describe_path(o.state)}]" for o in cells[:4]))
         else:
@@ -225,6 +228,9 @@ def run(ctx):
             outs = interp.run_function(SER, "get_resolution", [Lin(consts.WORLD)])
             if len(outs) == 1 and outs[0].kind == "return" and outs[0].value == Lin(-1):
                 ctx.ok("C05.0", f"{Q}.get_resolution(WORLD_CELL) == -1", core.loc(SER, outs[0].node), "the all-zero word has no marker")
+            elif any(opaque_path(o.state) or not isinstance(o.value, (Lin, ExcV)) for o in outs):
+                ctx.unk("C05.0", f"{Q}.get_resolution(WORLD_CELL) == -1", core.loc(SER, ctx.sources.func(SER, 'get_resolution')),
+                        f"the scan uses an operation that is not modelled: outcomes {[(o.kind, o.value) for o in outs]}")
             else:
                 ctx.bad("C05.0", f"{Q}.get_resolution(WORLD_CELL) != -1", core.loc(SER, ctx.sources.func(SER, 'get_resolution')),
                         f"outcomes {[(o.kind, o.value) for o in outs]}")
